@@ -96,7 +96,8 @@ def replay_concrete(c):
 
 
 def replay_file(data):
-    return replay_concrete(data["concrete"])
+    c = data["concrete"]
+    return replay_upgrade(c) if "upgrade" in c else replay_concrete(c)
 
 
 def _combos(n, same):
@@ -167,6 +168,21 @@ class UpgradeMonotone(Unit):
         if out[0] == "return":
             bv = eng.as_bool_value(st, out[1])
             st.oblige("upgrade monotone", zbool(bv) if bv is not None else z3.BoolVal(False))
+
+    def replay(self, ctx, model, label):
+        sets = [[f for f in UNIVERSE if z3.is_true(model.eval(fs.mem[f], model_completion=True))] for fs in ctx["fss"]]
+        return replay_upgrade({"upgrade": list(self.key), "a": sets[0], "b": sets[1]})
+
+
+def replay_upgrade(c):
+    up = pkv.upgrade_functions_map[tuple(c["upgrade"])]
+    a, b = set(c["a"]), set(c["b"])
+    try:
+        ok = H.upgrade_monotone(a, b, up)
+    except Exception as e:  # noqa
+        return {"reproduced": True, "concrete": c, "observed": f"raised {type(e).__name__}: {e}"}
+    return {"reproduced": not ok, "concrete": c,
+            "observed": f"a<=b but upgrade(a)={sorted(up(set(a)))} not <= upgrade(b)={sorted(up(set(b)))}" if not ok else "holds"}
 
 
 for key in sorted(pkv.upgrade_functions_map):
